@@ -315,6 +315,50 @@ def check_message(m, tier):
                 f"freedom(extra_len={fr.extra_len}, TRUE={fr.true_octet:#x}, explicit_defaults={fr.explicit_defaults}, trailing={fr.trailing}): {type(e).__name__}: {e}"[:400])
 
 
+def wrong_typed_variants(x):
+    """x with one leaf (str / bytes / int / bool / None field, at any depth, list elements included) replaced by a value of another type."""
+    import dataclasses
+    if dataclasses.is_dataclass(x) and not isinstance(x, type):
+        for f in dataclasses.fields(x):
+            if not f.init:
+                continue
+            v = getattr(x, f.name)
+            for w in _wrong(v):
+                try:
+                    yield dataclasses.replace(x, **{f.name: w})
+                except Exception:
+                    pass
+
+
+def rebuild(x):
+    """The same value constructed again from its fields (every dataclass instance of the tree through its constructor)."""
+    import dataclasses
+    if dataclasses.is_dataclass(x) and not isinstance(x, type):
+        return dataclasses.replace(x, **{f.name: rebuild(getattr(x, f.name)) for f in dataclasses.fields(x) if f.init})
+    if isinstance(x, list):
+        return [rebuild(e) for e in x]
+    return x
+
+
+def _wrong(v):
+    import dataclasses
+    if isinstance(v, bool) or v is None:
+        return
+    if isinstance(v, str):
+        yield b"x"; yield 7
+    elif isinstance(v, bytes):
+        yield "x"; yield 7
+    elif isinstance(v, int):
+        yield "x"; yield b"x"
+    elif isinstance(v, list):
+        for k in range(len(v)):
+            for w in _wrong(v[k]):
+                yield v[:k] + [w] + v[k + 1:]
+        yield v + [object()]
+    elif dataclasses.is_dataclass(v):
+        yield from wrong_typed_variants(v)
+
+
 def main():
     tier = os.environ.get("VERIF_TIER", "quick")
     seed = int(os.environ.get("VERIF_SEED", "0") or 0)
@@ -337,6 +381,45 @@ def main():
         n_eval["C01"] += 1
         if not eq_msg(back, m):
             rec("C01", "unpack(pack(m)) == m in every field", m, f"second pass (after other messages were decoded): decoded {back!r}"[:400])
+    # encoding has no memory: after packs that FAIL half-way (one leaf of a message replaced by a value of the wrong type, at every
+    # position of the message tree) every message still encodes to the bytes it encoded to before
+    first = {}
+    for i, m in enumerate(msgs):
+        try:
+            first[i] = bytes(m.pack(OPT))
+        except Exception:
+            pass
+    n_failed = 0
+    for i, m in enumerate(msgs):
+        if i not in first or (tier == "quick" and i % 3):
+            continue
+        for bad_m in wrong_typed_variants(m):
+            try:
+                bad_m.pack(OPT)
+                continue
+            except Exception:
+                n_failed += 1
+            # straight after the failure: the message itself, built anew
+            n_eval["C03"] += 1
+            try:
+                again = bytes(rebuild(m).pack(OPT))
+            except Exception as e:
+                rec("C03", "pack(m) is a function of m: same bytes after other packs failed", m, f"straight after the failed pack of {bad_m!r}: {type(e).__name__}: {e}"[:400])
+                break
+            if again != first[i]:
+                rec("C03", "pack(m) is a function of m: same bytes after other packs failed", m, f"straight after the failed pack of {bad_m!r}: {again.hex()[:160]} instead of {first[i].hex()[:160]}"[:500])
+                break
+    for i, m in enumerate(msgs):
+        if i not in first:
+            continue
+        n_eval["C03"] += 1
+        try:
+            again = bytes(rebuild(m).pack(OPT))     # built anew: values computed at construction time are computed again
+        except Exception as e:
+            rec("C03", "pack(m) is a function of m: same bytes after other packs failed", m, f"after {n_failed} failed packs: {type(e).__name__}: {e}")
+            continue
+        if again != first[i]:
+            rec("C03", "pack(m) is a function of m: same bytes after other packs failed", m, f"after {n_failed} failed packs: {again.hex()[:160]} instead of {first[i].hex()[:160]}")
     total = sum(n_eval.values())
     out = {"evaluations": total, "distinct_nontrivial": total, "per_property": n_eval, "messages": len(msgs),
            "violations": list(known_seen.values()) + violations, "wall_s": round(time.time() - t0, 2),
@@ -350,6 +433,18 @@ if __name__ == "__main__":
         spec = json.load(open(sys.argv[2]))
         m = eval(spec["inputs"]["message"])
         check_message(m, "quick")
+        if "after other packs failed" in str(spec.get("clause", "")):
+            first_bytes = bytes(m.pack(OPT))
+            for bad_m in wrong_typed_variants(m):
+                try:
+                    bad_m.pack(OPT)
+                    continue
+                except Exception:
+                    pass
+                again = bytes(rebuild(m).pack(OPT))
+                if again != first_bytes:
+                    rec("C03", "pack(m) is a function of m: same bytes after other packs failed", m, f"straight after the failed pack of {bad_m!r}: {again.hex()[:160]} instead of {first_bytes.hex()[:160]}"[:500])
+                    break
         print(json.dumps({"violations": (list(known_seen.values()) + violations)[:6]}, default=str)[:3000])
         sys.exit(1 if (violations or known_seen) else 0)
     main()
